@@ -481,6 +481,9 @@ func applyKeyEvents(m *machine.Machine, evs []engine.Event, ei *int, res *engine
 				res.Fault("key")
 			}
 		}
+		if ev.K == "bus_w" {
+			m.Write(ev.A, ev.V) // the scheduler as the guest: scroll registers rewritten so that the picture moves
+		}
 	}
 }
 
